@@ -35,8 +35,9 @@ TRUSTED = [
     "translator/gen_cookies.py (constants, expiry formulas and comparison directions, ast shapes of _is_domain_match / is_ip_address)",
     "extraction: ExtrOcamlBasic only; ocaml/common/conv.ml + ocaml/C16/driver.ml (hex I/O, sorting of answers)",
     "correspondence harness harness/c16.py: sampled, not proved; the RFC 6265 reference store in it is hand-written from the RFC text",
-    "oracles (not modelled): aiohttp._cookie_helpers.parse_set_cookie_headers and http.cookies.Morsel (header -> attribute "
-    "record), CookieJar._parse_date, int() on Max-Age, yarl.URL (raw_host, path, scheme), json + file I/O of save/load, "
+    "not modelled, but compared on every run with the RFC 6265 5.2 / 5.1.1 reference parser of this harness (suite set_cookie_parser), "
+    "whose records also feed the end-to-end oracle: aiohttp._cookie_helpers.parse_set_cookie_headers, http.cookies.Morsel, CookieJar._parse_date; "
+    "oracles: int() on Max-Age, yarl.URL (raw_host, path, scheme), json + file I/O of save/load, "
     "Morsel value quoting in _build_morsel",
     "treat_as_secure_origin: request secure-ness (scheme, or exact origin among the declared ones) is computed by the harness and given to model and reference",
     "not modelled: quote_cookie=False, cookies set without a response URL (shared cookies), the morsel cache",
@@ -151,12 +152,49 @@ def rfc_max_age(s):
     return int(s)
 
 
+_MONTHS = ["jan", "feb", "mar", "apr", "may", "jun", "jul", "aug", "sep", "oct", "nov", "dec"]
+
+
 def parse_http_date(v: str):
+    """RFC 6265 5.1.1 cookie-date, written here from the RFC (independent of CookieJar._parse_date)."""
     import calendar
-    try:
-        return calendar.timegm(_time.strptime(v, "%a, %d %b %Y %H:%M:%S GMT"))
-    except ValueError:
+    import re
+    delim = lambda c: c == "\t" or " " <= c <= "/" or ";" <= c <= "@" or "[" <= c <= "`" or "{" <= c <= "~"  # noqa: E731
+    tokens, cur = [], ""
+    for c in v:
+        if delim(c):
+            if cur:
+                tokens.append(cur)
+            cur = ""
+        else:
+            cur += c
+    if cur:
+        tokens.append(cur)
+    tm = dom = mon = yr = None
+    for tok in tokens:
+        m = re.match(r"(\d{1,2}):(\d{1,2}):(\d{1,2})(?!\d)", tok)
+        if tm is None and m:
+            tm = tuple(int(x) for x in m.groups())
+            continue
+        m = re.match(r"(\d{1,2})(?!\d)", tok)
+        if dom is None and m:
+            dom = int(m.group(1))
+            continue
+        if mon is None and tok[:3].lower() in _MONTHS:
+            mon = _MONTHS.index(tok[:3].lower()) + 1
+            continue
+        m = re.match(r"(\d{2,4})(?!\d)", tok)
+        if yr is None and m:
+            yr = int(m.group(1))
+    if None in (tm, dom, mon, yr):
         return None
+    if 70 <= yr <= 99:
+        yr += 1900
+    elif 0 <= yr <= 69:
+        yr += 2000
+    if not 1 <= dom <= 31 or yr < 1601 or tm[0] > 23 or tm[1] > 59 or tm[2] > 59:
+        return None
+    return calendar.timegm((yr, mon, dom, tm[0], tm[1], tm[2], -1, -1, -1))
 
 
 def rfc_parse_set_cookie(header: str) -> dict:
@@ -257,8 +295,19 @@ class RefStore:
 # ---------------------------------------------------------------------------------------------
 # generation
 
-def http_date(t: int) -> str:
-    return _time.strftime("%a, %d %b %Y %H:%M:%S GMT", _time.gmtime(t))
+DATE_STYLES = ["rfc1123", "rfc1123", "rfc850", "rfc850", "asctime", "rfc1123z"]
+
+
+def http_date(t: int, style: str = "rfc1123") -> str:
+    """The date syntaxes servers write in Expires (RFC 7231 7.1.1.1 + the numeric-zone variant aiohttp accepts)."""
+    g = _time.gmtime(t)
+    if style == "rfc850":
+        return _time.strftime("%A, %d-%b-%y %H:%M:%S GMT", g)       # Saturday, 09-Jan-27 08:00:00 GMT
+    if style == "asctime":
+        return _time.strftime("%a %b ", g) + "%2d" % g.tm_mday + _time.strftime(" %H:%M:%S %Y", g)   # Sat Jan  9 08:00:00 2027
+    if style == "rfc1123z":
+        return _time.strftime("%a, %d %b %Y %H:%M:%S +0000", g)
+    return _time.strftime("%a, %d %b %Y %H:%M:%S GMT", g)
 
 
 class Gen:
@@ -277,14 +326,14 @@ class Gen:
         if 0.12 < x < 0.40:
             k = r.random()
             if k < 0.12:
-                a["expires"] = (http_date(0), 0)
+                a["expires"] = (http_date(0, r.choice(DATE_STYLES)), 0)
             elif k < 0.18:
-                a["expires"] = (http_date(1), 1)
+                a["expires"] = (http_date(1, r.choice(DATE_STYLES)), 1)
             elif k < 0.26:
                 a["expires"] = ("garbage", None)
             else:
-                t = int(now) + r.choice([-100, -5, 0, 5, 6, 10, 50, 100])
-                a["expires"] = (http_date(t), t)
+                t = int(now) + r.choice([-100, -5, 0, 5, 6, 10, 50, 100]) + 86400 * r.choice([0, 0, 0, 0] + list(range(-7, 8)))
+                a["expires"] = (http_date(t, r.choice(DATE_STYLES)), t)
         return dress(a, r) if r.random() < 0.5 else a
 
     def url(self, paths):
@@ -345,7 +394,7 @@ class Gen:
                          max_age=r.choice([None, None, "5", "10", "0"]), expires=None)
                 if a["max_age"] is None and r.random() < 0.3:
                     t = int(now) + r.choice([5, 10, -5])
-                    a["expires"] = (http_date(t), t)
+                    a["expires"] = (http_date(t, r.choice(DATE_STYLES)), t)
                 if r.random() < 0.4:
                     dress(a, r)
                 ops.append(["set", [r.choice(["http", "https"]), h, r.choice(["/", "/foo/x", "/bar"])], [a]])
@@ -409,7 +458,7 @@ class Gen:
                 deadline = now + int(a["max_age"])
             else:
                 t = int(now) + r.choice([1, 2, 5])
-                a["expires"] = (http_date(t), t)
+                a["expires"] = (http_date(t, r.choice(DATE_STYLES)), t)
                 deadline = t
             if r.random() < 0.3:
                 dress(a, r)
@@ -448,7 +497,7 @@ class Gen:
                 ops.append(["set", u, [self.attrs(now) for _ in range(1 if r.random() < 0.8 else 2)]])
                 self.touch(ops, 0.2)
             elif x < 0.57:
-                dt = r.choice([0, 1, 4, 5, 6, 10, 45, 50, 100, 0.25, 0.5, 0.875, 4.75, 9.5])
+                dt = r.choice([0, 1, 4, 5, 6, 10, 45, 50, 100, 0.25, 0.5, 0.875, 4.75, 9.5, 86400 * 3, 86400 * 8])
                 now += dt
                 ops.append(["advance", dt])
             elif x < 0.60:
@@ -1076,6 +1125,59 @@ def suite_session(ctx):
     ctx.close_suite("session", n)
 
 
+# ---------------------------------------------------------------------------------------------
+# header -> attribute record: aiohttp's parse_set_cookie_headers against the RFC 6265 5.2 reference parser
+
+def parser_record_impl(header):
+    """What aiohttp makes of one Set-Cookie header, in the shape of rfc_parse_set_cookie (Expires as a time)."""
+    from aiohttp._cookie_helpers import parse_set_cookie_headers
+    from aiohttp.cookiejar import CookieJar
+    out = parse_set_cookie_headers([header])
+    if len(out) != 1:
+        return {"cookies": len(out)}
+    name, mo = out[0]
+    return {"name": name, "value": mo.value, "domain": mo["domain"] or None, "path": mo["path"] or None,
+            "secure": bool(mo["secure"]), "max_age": mo["max-age"] or None,
+            "expires": CookieJar._parse_date(mo["expires"]) if mo["expires"] else None}
+
+
+def parser_record_ref(header):
+    a = rfc_parse_set_cookie(header)
+    return {"name": a["name"], "value": a["value"], "domain": a["domain"], "path": a["path"], "secure": a["secure"],
+            "max_age": a["max_age"], "expires": a["expires"][1] if a["expires"] is not None else None}
+
+
+def suite_parser(ctx):
+    r = ctx.rng
+    headers = []
+    base = 1_799_020_800          # Mon, 04 Jan 2027 00:00:00 GMT
+    others = [["Secure"], ["Path=/foo"], ["Domain=example.com"], ["HttpOnly"], ["Max-Age="], ["Secure", "Path=/foo", "Domain=example.com", "HttpOnly"]]
+    for style in ("rfc1123", "rfc850", "asctime", "rfc1123z"):
+        for day in range(7):
+            for t in (base + day * 86400 + 8 * 3600, base - (7 - day) * 86400 * 52 + 61):
+                date = "Expires=" + http_date(t, style)
+                for rest in others:
+                    for pos in range(len(rest) + 1):
+                        headers.append("; ".join(["n=v"] + rest[:pos] + [date] + rest[pos:]))
+    g = Gen(r)
+    for _ in range(600 if ctx.quick else 20000):
+        headers.append(header_of(dress(g.attrs(T0), r)))
+    n = 0
+    for hd in headers:
+        got, want = parser_record_impl(hd), parser_record_ref(hd)
+        n += 1
+        ctx.case(("parser", hd), nontrivial=True)
+        if got != want:
+            ctx.disagreement("set_cookie_parser", {"suite": "parser", "header": hd}, want, got)
+            lost = [k for k in ("secure", "expires", "max_age", "domain", "path") if want.get(k) and got.get(k) != want.get(k)]
+            if lost and len(ctx.violations) < 6:
+                ctx.violation({"suite": "parser", "header": hd, "diag": {"kind": "parser", "lost": lost}},
+                              f"Set-Cookie {hd!r}: aiohttp's parser yields {got}, RFC 6265 5.2 yields {want}: the cookie loses {lost} "
+                              "and will be scoped more widely / live longer than the server said")
+    ctx.count("parser:systematic-dates", len(headers) - (600 if ctx.quick else 20000))
+    ctx.close_suite("set_cookie_parser", n)
+
+
 def load_corpus():
     out = []
     for f in sorted(glob.glob(os.path.join(fw.VERIF, "corpus", "C16", "*.json"))):
@@ -1127,6 +1229,7 @@ def run(ctx):
         ctx.traces_validated += len(cases)
     suite_domain_match(ctx, exe)
     suite_session(ctx)
+    suite_parser(ctx)
 
 
 def replay(ctx, case):
@@ -1137,6 +1240,9 @@ def replay(ctx, case):
         m = fw.run_model(exe, ["DM %s %s" % (hx(case["domain"]), hx(case["host"]))])[0] if ok else None
         return {"impl": got, "model": m, "rfc": rfc_domain_match(case["domain"], case["host"]),
                 "violates": bool(got and not rfc_domain_match(case["domain"], case["host"]))}
+    if case.get("suite") == "parser":
+        got, want = parser_record_impl(case["header"]), parser_record_ref(case["header"])
+        return {"violates": got != want, "aiohttp": got, "rfc_6265_5_2": want}
     if case.get("suite") == "session":
         got, twins, allowed, err = run_session_case(case)
         bad = [(i, k, v) for i, (g, al) in enumerate(zip(got, allowed)) for k, v in g.items() if v not in al.get(k, ())]
